@@ -510,6 +510,7 @@ func init() {
 					sc.Scripts["dm"] = &TokenScript{Launches: []simos.Script{{LifeMs: Pick(r, 50, 300), Exit: 0}}}
 					sc.Scripts["simstop:dm"] = &TokenScript{Launches: []simos.Script{{LifeMs: Pick(r, 500, 1500, 3000), Exit: 0}}}
 					sc.Project.Procs = append(sc.Project.Procs, dm)
+					sc.Strategy.StallPermille = 0 // (a stalled supervisor may find the command's time-out expired before it starts it)
 				}
 			}
 			// a dependent that the user is already stopping (and that dies slowly) when the
@@ -533,6 +534,7 @@ func init() {
 				}
 			}
 			late := func() {
+				sc.Strategy.StallPermille = 0
 				if sc.Clients[0].Ops[0].AtMs < 3500 {
 					sc.Clients[0].Ops[0].AtMs = Pick(r, 3500, 5000)
 				}
